@@ -70,6 +70,21 @@ func TestC09(t *testing.T) {
 		{{Kind: "forged", H: 40}, {Kind: "forged", H: 40}, {Kind: "h", H: 30}},
 		{{Kind: "h", H: 20}, {Kind: "h", H: 20}, {Kind: "h", H: 36}}, // trusted 25: two stale answers
 	}
+	// five and six asked peers (the two-thirds quorum is 4 of 5, 4 of 6): a sample of arrival orders
+	for _, b := range [][]c09Ans{
+		{{Kind: "h", H: 30}, {Kind: "h", H: 30}, {Kind: "h", H: 30}, {Kind: "h", H: 35}, {Kind: "h", H: 35}},
+		{{Kind: "h", H: 30}, {Kind: "h", H: 30}, {Kind: "h", H: 30}, {Kind: "h", H: 30}, {Kind: "h", H: 35}},
+		{{Kind: "h", H: 30}, {Kind: "h", H: 30}, {Kind: "h", H: 30}, {Kind: "h", H: 35}, {Kind: "notfound"}},
+		{{Kind: "h", H: 30}, {Kind: "h", H: 30}, {Kind: "h", H: 30}, {Kind: "h", H: 35}, {Kind: "h", H: 36}, {Kind: "h", H: 37}},
+	} {
+		for o := 0; o < 6; o++ {
+			ps := append([]c09Ans(nil), b...)
+			for i := range ps {
+				ps[i].DelayMs = 5 + 10*((i*(o+1)+o)%len(ps))
+			}
+			mon.Emit(r, "head", c09P{Peers: ps, CtxMs: 3000}, "head")
+		}
+	}
 	for _, b := range base {
 		perm(len(b), func(order []int) {
 			ps := append([]c09Ans(nil), b...)
